@@ -114,6 +114,15 @@ Proof.
   split; intros H; vm_compute in H; discriminate H.
 Qed.
 
+(* a READ between the runs (ToEntry on a module that has not been converted) memoises types too: without the reset
+   at the top of Process the run after the next load still uses them *)
+Theorem C18_read_leaves_memo_refuted :
+  exists ops, no_partial [] ops /\ hist before_2ea7be8 ops <> ref before_2ea7be8 ops /\ hist now ops = ref now ops.
+Proof.
+  exists [L wA; L wC1; QTree; L wC2; Proc]. split; [vm_compute; tauto|].
+  split; [intros H; vm_compute in H; discriminate H|vm_compute; reflexivity].
+Qed.
+
 (* D57: the identity dictionary is never cleared: identities of a superseded submodule revision stay *)
 Theorem C18_identity_dict_refuted :
   exists ops, no_partial [] ops /\ hist before_b3c50c0 ops <> ref before_b3c50c0 ops /\ hist pinned ops <> ref pinned ops.
